@@ -170,11 +170,17 @@ def real_socket_transfers(ctx, res):
             data = data[:n]
             files["f%d.bin" % n] = data
             tree.write("f%d.bin" % n, data)
-        cfg = pyg.make_config(tree.root, **dict({"handlers.dir.DirHandler|cachetime": "0", "pygopherd|servertype": "ThreadingTCPServer"}, **realsrv.tls_options()))
-        try:
-            srv = realsrv.RealServer(cfg, tree.tmp, "c04")
-        except Exception as e:  # noqa
-            res.degraded.append("real server for C04 did not start: " + str(e)[:120])
+        cfg = pyg.make_config(tree.root, **dict({"handlers.dir.DirHandler|cachetime": "0", "pygopherd|servertype": "ThreadingTCPServer", "pygopherd|port": "0", "pygopherd|interface": "127.0.0.1"},
+                                                 **realsrv.tls_options()))
+        srv, err = None, None
+        for attempt in range(3):
+            try:
+                srv = realsrv.RealServer(cfg, tree.tmp, "c04-%d" % attempt)
+                break
+            except Exception as e:  # noqa
+                err = e
+        if srv is None:
+            res.degraded.append("real server for C04 did not start: " + str(err)[:200])
             return
         with srv:
             for name, data in files.items():
